@@ -189,6 +189,24 @@ def batch_branches(fnode):
             test = n.test
         else:
             continue
+        # the SIZE of the batch decides: `p.shape[0] <= 65536`, `x.numel() > N` - a chunked / blocked path for large batches is another code path than the one
+        # every test exercises (extent 0 / 1 / rank tests are shape normalisation, not a size threshold)
+        sized = False
+        for c in ast.walk(test):
+            if isinstance(c, ast.Compare) and len(c.ops) == 1 and isinstance(c.ops[0], (ast.Lt, ast.LtE, ast.Gt, ast.GtE)):
+                for a_, b_ in ((c.left, c.comparators[0]), (c.comparators[0], c.left)):
+                    ext = (isinstance(a_, ast.Subscript) and isinstance(a_.value, ast.Attribute) and a_.value.attr in ('shape', 'lshape') and isinstance(a_.slice, ast.Constant) and
+                           isinstance(a_.slice.value, int) and a_.slice.value >= 0) or \
+                        (isinstance(a_, ast.Call) and isinstance(a_.func, ast.Attribute) and a_.func.attr in ('numel', 'nelement')) or \
+                        (isinstance(a_, ast.Call) and isinstance(a_.func, ast.Attribute) and a_.func.attr == 'size' and len(a_.args) == 1 and isinstance(a_.args[0], ast.Constant) and
+                         isinstance(a_.args[0].value, int) and a_.args[0].value >= 0)
+                    big = (isinstance(b_, ast.Constant) and isinstance(b_.value, (int, float)) and b_.value > 4) or isinstance(b_, (ast.Attribute, ast.BinOp)) or \
+                        (isinstance(b_, ast.Name) and b_.id.isupper())
+                    if ext and big:
+                        out.append((n, 'batch size ' + src(c)[:40]))
+                        sized = True
+        if sized:
+            continue
         for c in ast.walk(test):
             if not isinstance(c, ast.Call):
                 continue
@@ -219,6 +237,11 @@ def rule_batchbranch(repo, rid, modules):
             hz = batch_branches(f.node)
             res.inst({'function': f.fq, 'whole-batch data-dependent branches': [s_ for _, s_ in hz]}, f.fq)
             for node, s_ in hz:
+                if s_.startswith('batch size '):
+                    res.add(Finding(rid, f, 'the branch on `%s` makes the SIZE of the batch choose the code path: batches beyond the threshold run a blocked / chunked variant '
+                                    'that no small example exercises (a remainder block, a per-block restart), so large batches are not the item-by-item result' % s_[11:],
+                                    node=node, construct='batch size branch|' + norm_construct(node.test, f.node)))
+                    continue
                 res.add(Finding(rid, f, 'the branch on `%s` collapses the values of the whole batch into one decision and selects a formula for EVERY item: an item '
                                 'that does not satisfy the condition is computed by the shortcut whenever its batch-mates do (or all items lose the shortcut\'s '
                                 'exactness) - batched and item-by-item results differ' % s_, node=node, construct='batch branch|' + norm_construct(node.test, f.node)))
@@ -379,4 +402,41 @@ def rule_regroup(repo, rid, modules, floor=20):
                    '    C = torch.zeros_like(t)\n    C[big] = b\n    D = torch.cat([t[big], s[big]], -1)\n    return A, C, D\n').body[0]
     if len(regrouped_rows(fx)) != 1:
         raise AnalysisError('%s: fixtures no longer classified (%d)' % (rid, len(regrouped_rows(fx))))
+    return res
+
+
+# ------------------------------------------------------------------------------------------------ exact-zero tests on tensor values
+def zero_compares(fnode):
+    """comparisons of a tensor VALUE with the literal 0 (not of a shape / length / count)"""
+    out = []
+    for n in ast.walk(fnode):
+        if isinstance(n, ast.Compare) and len(n.ops) == 1 and isinstance(n.ops[0], (ast.Gt, ast.Lt, ast.GtE, ast.LtE, ast.Eq, ast.NotEq)):
+            sides = [n.left, n.comparators[0]]
+            z = [s_ for s_ in sides if isinstance(s_, ast.Constant) and not isinstance(s_.value, bool) and s_.value in (0, 0.0)]
+            o = [s_ for s_ in sides if not isinstance(s_, ast.Constant)]
+            if not (z and o):
+                continue
+            e = o[0]
+            shapey = any((isinstance(x, ast.Attribute) and x.attr in ('shape', 'ndim', 'lshape')) or
+                         (isinstance(x, ast.Call) and isinstance(x.func, ast.Attribute) and x.func.attr in ('size', 'dim', 'numel', 'nelement', 'ndimension')) or
+                         (isinstance(x, ast.Call) and dotted(x.func) == 'len') for x in ast.walk(e))
+            plain_int = isinstance(e, ast.Name) and e.id in ('L', 'n', 'N', 'k', 'i', 'j', 'dim', 'iteration', 'level')
+            if not shapey and not plain_int:
+                out.append(n)
+    return out
+
+
+@guarded
+def rule_zerocmp(repo, rid, modules, floor=20):
+    res = RuleResult(rid, 'the Lie-tensor kernels decide nothing by comparing a tensor value with exact 0 ("skip the items whose translation is zero"): regimes switch at '
+                     'machine epsilon with a limit formula on the other side (Cxx.LIMIT); an exact-zero test also fires for values that UNDERFLOW to zero on the way '
+                     '(the 2-norm of a 1e-24 vector in float32) and leaves those items at the skipped value', floor=floor)
+    for m in modules:
+        for f in repo.module(m).functions.values():
+            hz = zero_compares(f.node)
+            res.inst({'function': f.fq, 'exact-zero tests': [src(c)[:40] for c in hz]}, f.fq)
+            for c in hz:
+                res.add(Finding(rid, f, '`%s` compares a tensor value with exact zero: items for which the tested quantity underflows (or is a legitimate tiny value) take the '
+                                '"nothing to do" side and keep a wrong result; the kernels switch regimes at eps against a limit formula, never at 0' % src(c)[:50], node=c,
+                                construct='exact-zero test|' + norm_construct(c, f.node)))
     return res
